@@ -182,16 +182,25 @@ package strz
 
 //@ func verifOctalRoundTrip
 //@   ensures result2 == len(s) && forall k in 0..len(s): result1[k] == s[k]
+//@   at after-call2:
+//@     assert len(b) % 4 == 0 && len(b) / 4 == len(s) && len(d) == len(b) && !sameArray(d, b)
+//@     assert forall k in 0..len(b)/4: octEsc(b, 4*k)
 //@   at after-call1:
 //@     assert len(b) == 4*len(s) && forall k in 0..len(s): octEsc(b, 4*k) && octVal(b, 4*k) == s[k]
+//@     assert forall k in 0..len(s): octEsc(b, 4*k)
 //@   at after-call4:
 //@     assert n == len(s)
 //@     assert forall k in 0..len(s): d[k] == octVal(b, 4*k)
 
 //@ func verifHexRoundTrip
 //@   ensures result2 == len(s) && forall k in 0..len(s): result1[k] == s[k]
+//@   at after-call2:
+//@     assert len(b) % 4 == 0 && len(b) / 4 == len(s) && len(d) == len(b) && !sameArray(d, b)
+//@     assert forall k in 0..len(s): hexEsc(b, 4*k)
+//@     assert forall k in 0..len(b)/4: hexEsc(b, 4*k)
 //@   at after-call1:
 //@     assert len(b) == 4*len(s) && forall k in 0..len(s): hexEsc(b, 4*k) && hexVal(b, 4*k) == s[k]
+//@     assert forall k in 0..len(s): hexEsc(b, 4*k)
 //@   at after-call4:
 //@     assert n == len(s)
 //@     assert forall k in 0..len(s): d[k] == hexVal(b, 4*k)
